@@ -1256,6 +1256,314 @@ static std::string op_crc(const std::vector<std::string>& w)
     return "ok " + U(crc);
 }
 
+// ---------------------------------------------------------------- C17: allocation discipline
+#if SBH_WRAP
+#include <new>
+extern "C" {
+void aw_reset(long fail_at);
+void aw_track(int on);
+const char* aw_events(void);
+int aw_bad_events(void);
+size_t aw_live(void);
+void aw_release_leaks(void);
+void* aw_caller_alloc(size_t n);
+void* aw_new(size_t n);
+void aw_delete(void* p);
+}
+void* operator new(size_t n)
+{
+    void* p = aw_new(n);
+    if (!p) {
+        throw std::bad_alloc();
+    }
+    return p;
+}
+void* operator new[](size_t n) { return operator new(n); }
+void* operator new(size_t n, const std::nothrow_t&) noexcept { return aw_new(n); }
+void* operator new[](size_t n, const std::nothrow_t&) noexcept { return aw_new(n); }
+void operator delete(void* p) noexcept { aw_delete(p); }
+void operator delete[](void* p) noexcept { aw_delete(p); }
+void operator delete(void* p, size_t) noexcept { aw_delete(p); }
+void operator delete[](void* p, size_t) noexcept { aw_delete(p); }
+void operator delete(void* p, const std::nothrow_t&) noexcept { aw_delete(p); }
+void operator delete[](void* p, const std::nothrow_t&) noexcept { aw_delete(p); }
+
+struct ASlot {
+    char kind; // 0 none, 'b' buffer, 't' trajectory, 'l' light program, 'y' yaw control, 'r' rth plan, 'B' builder, 'p' light player
+    sb_buffer_t buf;
+    sb_trajectory_t traj;
+    sb_light_program_t light;
+    sb_yaw_control_t yaw;
+    sb_rth_plan_t rth;
+    sb_trajectory_builder_t builder;
+    sb_light_player_t player;
+    ASlot() : kind(0) {}
+};
+
+// library calls are made with tracking on; everything the harness itself
+// allocates is allocated with tracking off
+static inline sb_error_t lib_done(sb_error_t e)
+{
+    aw_track(0);
+    return e;
+}
+#define LIB(expr) lib_done((aw_track(1), (expr)))
+#define LIBV(stmt) do { aw_track(1); stmt; aw_track(0); } while (0)
+
+static void a_destroy(ASlot& s)
+{
+    switch (s.kind) {
+    case 'b': LIBV(sb_buffer_destroy(&s.buf)); break;
+    case 't': LIBV(sb_trajectory_destroy(&s.traj)); break;
+    case 'l': LIBV(sb_light_program_destroy(&s.light)); break;
+    case 'y': LIBV(sb_yaw_control_destroy(&s.yaw)); break;
+    case 'r': LIBV(sb_rth_plan_destroy(&s.rth)); break;
+    case 'B': LIBV(sb_trajectory_builder_destroy(&s.builder)); break;
+    case 'p': LIBV(sb_light_player_destroy(&s.player)); break;
+    default: break;
+    }
+    s.kind = 0;
+}
+
+static std::vector<std::string> colon(const std::string& s)
+{
+    std::vector<std::string> out;
+    std::stringstream ss(s);
+    std::string tok;
+    while (std::getline(ss, tok, ':')) {
+        out.push_back(tok);
+    }
+    return out;
+}
+
+static std::string op_alloc(const std::vector<std::string>& w)
+{
+    // alloc <nslots> <k> <op;op;...>
+    size_t nslots = strtoul(w[1].c_str(), 0, 10);
+    long k = strtol(w[2].c_str(), 0, 10);
+    std::vector<ASlot> slots(nslots);
+    std::vector<Guarded*> callers;      // caller memory behind views (never freed before the end of the case)
+    std::vector<int> fds;
+    std::vector<std::string> ops;
+    {
+        std::stringstream ss(w[3]);
+        std::string tok;
+        while (std::getline(ss, tok, ';')) {
+            ops.push_back(tok);
+        }
+    }
+    std::string rcs;
+    aw_reset(k);
+    auto emit = [&](const std::string& r) { rcs += (rcs.empty() ? "" : ",") + r; };
+    auto rc = [&](sb_error_t e) { aw_track(0); emit(S((long long)e)); };
+    auto skipped = [&]() { emit("s"); };
+    auto is_free = [&](size_t i) { return i < nslots && slots[i].kind == 0; };
+    auto kindch = [](const std::string& s) { return s[0]; };
+    for (const std::string& o : ops) {
+        std::vector<std::string> a = colon(o);
+        if (a.empty()) {
+            continue;
+        }
+        const std::string& c = a[0];
+        size_t i = a.size() > 1 ? strtoul(a[1].c_str(), 0, 10) : 0;
+        if (c == "bi") {
+            if (!is_free(i)) { skipped(); continue; }
+            sb_error_t e = LIB(sb_buffer_init(&slots[i].buf, strtoul(a[2].c_str(), 0, 10)));
+            if (e == SB_SUCCESS) slots[i].kind = 'b';
+            rc(e);
+        } else if (c == "bv") {
+            if (!is_free(i)) { skipped(); continue; }
+            size_t n = strtoul(a[3].c_str(), 0, 10);
+            Guarded* g = new Guarded(std::vector<uint8_t>(n, 0x5a));
+            callers.push_back(g);
+            LIBV(sb_buffer_init_view(&slots[i].buf, g->ptr, n));
+            slots[i].kind = 'b';
+            rc(SB_SUCCESS);
+        } else if (c == "bb") {
+            if (!is_free(i)) { skipped(); continue; }
+            size_t n = strtoul(a[2].c_str(), 0, 10);
+            void* p = aw_caller_alloc(n);
+            sb_error_t e = LIB(sb_buffer_init_from_bytes(&slots[i].buf, p, n));
+            if (e == SB_SUCCESS) {
+                slots[i].kind = 'b';
+            } else {
+                LIBV(free(p));   // refused: the caller still owns the block and frees it
+            }
+            rc(e);
+        } else if (c == "br" || c == "ba" || c == "be" || c == "bc" || c == "bp") {
+            if (i >= nslots || slots[i].kind != 'b') { skipped(); continue; }
+            size_t n = a.size() > 2 ? strtoul(a[2].c_str(), 0, 10) : 0;
+            sb_error_t e;
+            if (c == "br") {
+                e = LIB(sb_buffer_resize(&slots[i].buf, n));
+            } else if (c == "ba") {
+                std::vector<uint8_t> d(n, 0x33);
+                e = LIB(sb_buffer_append_bytes(&slots[i].buf, d.data(), n));
+            } else if (c == "be") {
+                e = LIB(sb_buffer_extend_with_zeros(&slots[i].buf, n));
+            } else if (c == "bc") {
+                e = LIB(sb_buffer_clear(&slots[i].buf));
+            } else {
+                e = LIB(sb_buffer_prune(&slots[i].buf));
+            }
+            rc(e);
+        } else if (c == "em") {
+            size_t j = strtoul(a[2].c_str(), 0, 10);
+            if (!is_free(j)) { skipped(); continue; }
+            sb_error_t e;
+            char kd = kindch(a[1]);
+            if (kd == 't') e = LIB(sb_trajectory_init_empty(&slots[j].traj));
+            else if (kd == 'l') e = LIB(sb_light_program_init_empty(&slots[j].light));
+            else if (kd == 'y') e = LIB(sb_yaw_control_init_empty(&slots[j].yaw));
+            else e = LIB(sb_rth_plan_init_empty(&slots[j].rth));
+            if (e == SB_SUCCESS) slots[j].kind = kd;
+            rc(e);
+        } else if (c == "fb") {
+            // fb:K:o:c:hex  -- init_from_buffer on a view of fresh caller memory
+            size_t j = strtoul(a[2].c_str(), 0, 10);
+            if (!is_free(j)) { skipped(); continue; }
+            Guarded* g = new Guarded(unhex(a[4]));
+            callers.push_back(g);
+            sb_error_t e;
+            char kd = kindch(a[1]);
+            if (kd == 't') e = LIB(sb_trajectory_init_from_buffer(&slots[j].traj, g->ptr, g->n));
+            else if (kd == 'l') e = LIB(sb_light_program_init_from_buffer(&slots[j].light, g->ptr, g->n));
+            else if (kd == 'y') e = LIB(sb_yaw_control_init_from_buffer(&slots[j].yaw, g->ptr, g->n));
+            else e = LIB(sb_rth_plan_init_from_buffer(&slots[j].rth, g->ptr, g->n));
+            if (e == SB_SUCCESS) slots[j].kind = kd;
+            rc(e);
+        } else if (c == "tb") {
+            if (!is_free(i)) { skipped(); continue; }
+            std::vector<uint8_t> d = unhex(a[2]);
+            uint8_t* p = (uint8_t*)aw_caller_alloc(d.size());
+            if (!d.empty()) memcpy(p, d.data(), d.size());
+            sb_error_t e = LIB(sb_trajectory_init_from_bytes(&slots[i].traj, p, d.size()));
+            if (e == SB_SUCCESS) {
+                slots[i].kind = 't';
+            } else {
+                LIBV(free(p));
+            }
+            rc(e);
+        } else if (c == "ff") {
+            // ff:K:o:R:c:hex
+            size_t j = strtoul(a[2].c_str(), 0, 10);
+            if (!is_free(j)) { skipped(); continue; }
+            std::vector<uint8_t> d = unhex(a[5]);
+            char kd = kindch(a[1]);
+            sb_error_t e;
+            if (a[3] == "f") {
+                int fd = make_fd(d);
+                fds.push_back(fd);
+                if (kd == 't') e = LIB(sb_trajectory_init_from_binary_file(&slots[j].traj, fd));
+                else if (kd == 'l') e = LIB(sb_light_program_init_from_binary_file(&slots[j].light, fd));
+                else if (kd == 'y') e = LIB(sb_yaw_control_init_from_binary_file(&slots[j].yaw, fd));
+                else e = LIB(sb_rth_plan_init_from_binary_file(&slots[j].rth, fd));
+            } else {
+                Guarded* g = new Guarded(d);
+                callers.push_back(g);
+                if (kd == 't') e = LIB(sb_trajectory_init_from_binary_file_in_memory(&slots[j].traj, g->ptr, g->n));
+                else if (kd == 'l') e = LIB(sb_light_program_init_from_binary_file_in_memory(&slots[j].light, g->ptr, g->n));
+                else if (kd == 'y') e = LIB(sb_yaw_control_init_from_binary_file_in_memory(&slots[j].yaw, g->ptr, g->n));
+                else e = LIB(sb_rth_plan_init_from_binary_file_in_memory(&slots[j].rth, g->ptr, g->n));
+            }
+            if (e == SB_SUCCESS) slots[j].kind = kd;
+            rc(e);
+        } else if (c == "cl") {
+            if (i < nslots && slots[i].kind == 't') {
+                sb_error_t e = LIB(sb_trajectory_clear(&slots[i].traj));
+                rc(e);
+            } else if (i < nslots && slots[i].kind == 'l') {
+                LIBV(sb_light_program_clear(&slots[i].light));
+                rc(SB_SUCCESS);
+            } else {
+                skipped();
+            }
+        } else if (c == "de") {
+            if (i < nslots && slots[i].kind != 0) {
+                a_destroy(slots[i]);
+                rc(SB_SUCCESS);
+            } else {
+                skipped();
+            }
+        } else if (c == "Bi") {
+            if (!is_free(i)) { skipped(); continue; }
+            sb_error_t e = LIB(sb_trajectory_builder_init(&slots[i].builder, (uint8_t)atoi(a[2].c_str()), 0));
+            if (e == SB_SUCCESS) slots[i].kind = 'B';
+            rc(e);
+        } else if (c == "Bs" || c == "Bl" || c == "Bh") {
+            if (i >= nslots || slots[i].kind != 'B') { skipped(); continue; }
+            sb_error_t e;
+            if (c == "Bs") {
+                e = LIB(sb_trajectory_builder_set_start_position(&slots[i].builder, vec_of(a[2], a[3], a[4], a[5])));
+            } else if (c == "Bl") {
+                e = LIB(sb_trajectory_builder_append_line(&slots[i].builder, vec_of(a[2], a[3], a[4], a[5]), (uint32_t)strtoul(a[6].c_str(), 0, 10)));
+            } else {
+                e = LIB(sb_trajectory_builder_hold_position_for(&slots[i].builder, (uint32_t)strtoul(a[2].c_str(), 0, 10)));
+            }
+            rc(e);
+        } else if (c == "Bf") {
+            size_t t = strtoul(a[2].c_str(), 0, 10);
+            if (i >= nslots || slots[i].kind != 'B' || !is_free(t)) { skipped(); continue; }
+            sb_error_t e = LIB(sb_trajectory_init_from_builder(&slots[t].traj, &slots[i].builder));
+            if (e == SB_SUCCESS) slots[t].kind = 't';
+            rc(e);
+        } else if (c == "rt") {
+            // rt:t:time:action:dur:tx:ty:alt:pre:post:neck:neckd:sx:sy:sz:sw
+            if (!is_free(i)) { skipped(); continue; }
+            sb_rth_plan_entry_t en;
+            memset(&en, 0, sizeof en);
+            en.time_sec = f_of_hex(a[2]);
+            en.action = (sb_rth_action_t)atoi(a[3].c_str());
+            en.duration_sec = f_of_hex(a[4]);
+            en.target.x = f_of_hex(a[5]);
+            en.target.y = f_of_hex(a[6]);
+            en.target_altitude = f_of_hex(a[7]);
+            en.pre_delay_sec = f_of_hex(a[8]);
+            en.post_delay_sec = f_of_hex(a[9]);
+            en.pre_neck_mm = f_of_hex(a[10]);
+            en.pre_neck_duration_sec = f_of_hex(a[11]);
+            sb_vector3_with_yaw_t start = vec_of(a[12], a[13], a[14], a[15]);
+            sb_error_t e = LIB(sb_trajectory_init_from_rth_plan_entry(&slots[i].traj, &en, start));
+            if (e == SB_SUCCESS) slots[i].kind = 't';
+            rc(e);
+        } else if (c == "pi") {
+            size_t o2 = strtoul(a[2].c_str(), 0, 10);
+            if (o2 >= nslots || slots[o2].kind != 'l' || !is_free(i)) { skipped(); continue; }
+            sb_error_t e = LIB(sb_light_player_init(&slots[i].player, &slots[o2].light));
+            if (e == SB_SUCCESS) slots[i].kind = 'p';
+            rc(e);
+        } else if (c == "ps") {
+            size_t n = i;
+            sb_poly_t poly;
+            float cs[8] = { 1, 1, 1, 1, 1, 1, 1, 1 };
+            sb_poly_make(&poly, cs, (uint8_t)n);
+            uint8_t nr = 0;
+            sb_error_t e = LIB(sb_poly_solve(&poly, 0.5f, 0, &nr));
+            rc(e);
+        } else {
+            emit("?" + c);
+        }
+    }
+    // end of every scenario: destroy everything (players before their programs are irrelevant to the heap)
+    for (size_t i = 0; i < nslots; i++) {
+        if (slots[i].kind != 0) {
+            a_destroy(slots[i]);
+        }
+    }
+    aw_track(0);
+    emit("0");
+    std::string out = "rcs=" + rcs + " trace=" + aw_events() + " live=" + U(aw_live()) + " bad=" + S(aw_bad_events());
+    aw_release_leaks();
+    for (Guarded* g : callers) {
+        delete g;
+    }
+    for (int fd : fds) {
+        close(fd);
+    }
+    return out;
+}
+#endif
+
 // ---------------------------------------------------------------- dispatch
 static std::string run_case(const std::vector<std::string>& w)
 {
@@ -1314,6 +1622,11 @@ static std::string run_case(const std::vector<std::string>& w)
     if (op == "crc") {
         return op_crc(w);
     }
+#if SBH_WRAP
+    if (op == "alloc") {
+        return op_alloc(w);
+    }
+#endif
     if (op == "crcspec") {
         std::vector<std::string> w2 = { "crc", "0", w[1], "-" };
         return op_crc(w2);
